@@ -91,3 +91,34 @@ pub fn build(w: &mut World) {
     }
     w.set_ext(Ext { gp, gq, noise });
 }
+
+use crate::scan::{dump, update_facts, Facts};
+use std::cell::RefCell;
+use std::collections::BTreeMap;
+use std::rc::Rc;
+
+pub type Dump = BTreeMap<(NodeId, u8, Vec<u8>), Vec<u8>>;
+
+thread_local! {
+    static BASE: RefCell<Option<(Rc<Facts>, Rc<Dump>)>> = RefCell::new(None);
+}
+
+/// Per-node scan facts and raw dump of the frozen world (identical at the start of every case of
+/// this thread, so computed once). Call right after `with_world` handed over the reset world.
+pub fn base(w: &World) -> (Rc<Facts>, Rc<Dump>) {
+    BASE.with(|c| {
+        let mut c = c.borrow_mut();
+        if c.is_none() {
+            let mut f = Facts::new();
+            update_facts(w.db(), &mut f, None);
+            *c = Some((Rc::new(f), Rc::new(dump(w.db()))));
+        }
+        let (f, d) = c.as_ref().unwrap();
+        (f.clone(), d.clone())
+    })
+}
+
+/// Nodes written by the transaction (its committed write-set).
+pub fn touched_nodes(run: &Run) -> std::collections::BTreeSet<NodeId> {
+    run.commit().map(|c| c.state_updates.by_node.keys().cloned().collect()).unwrap_or_default()
+}
